@@ -5,6 +5,9 @@
 (* race inside batchTracker.record, and logs only what a caller can see:   *)
 (*   cancel                the caller's context ended                      *)
 (*   rel cs os             the callbacks of the calls cs returned os       *)
+(*   begin cs / beginc     (runs with a deferring o.Go, Spawn = "deferred")*)
+(*                         the driver started the spawned function of call *)
+(*                         cs[1] / the cleanup waiter                      *)
 (*   obs returned kind c cleaned   at the following quiescent point        *)
 (* One trace per line of trace.ndjson.  A trace is accepted iff the        *)
 (* atomic-grain specification Batch has a behaviour whose environment      *)
@@ -51,6 +54,16 @@ TCancel ==
     /\ IF main = "returned" \/ ctx THEN UNCHANGED vars ELSE Cancel     \* nobody reads the context any more
     /\ ti' = ti + 1 /\ UNCHANGED tr
 
+(* a deferring spawner starts one of the functions it was handed (the driver learns which one from the callback) *)
+TBegin ==
+    /\ More /\ Cur.e = "begin"
+    /\ Begin(Cur.cs[1])
+    /\ ti' = ti + 1 /\ UNCHANGED tr
+TBeginCleanup ==
+    /\ More /\ Cur.e = "beginc"
+    /\ BeginCleanup
+    /\ ti' = ti + 1 /\ UNCHANGED tr
+
 (* the driver looked after synctest.Wait(): nothing of the code can move, and this is what it saw *)
 TObserve ==
     /\ More /\ Cur.e = "obs"
@@ -70,7 +83,7 @@ TInternal ==
 
 TDone == ~More /\ UNCHANGED <<vars, tr, ti>>
 
-TNext == ReleaseGroup \/ TCancel \/ TObserve \/ TInternal \/ TDone
+TNext == ReleaseGroup \/ TCancel \/ TBegin \/ TBeginCleanup \/ TObserve \/ TInternal \/ TDone
 TSpec == TInit /\ [][TNext]_<<vars, tr, ti>>
 
 (* progress report: how far a trace got (the check takes the maximum per trace), and acceptance *)
